@@ -17,19 +17,19 @@ func registerProps() {
 	txAssume := []string{"SimNet models QUIC stream semantics as pinned in DESIGN.md 2.4 (stream visibility, close discards unread data, idle timeout 30 s)", "code between two generated yield points of one goroutine contains no synchronisation other than unlock/atomic operations", "one monotone fake clock for both nodes (no skew)"}
 	reg(&propDef{
 		ID: "C03", Pkg: "internal/transfer", Level: "exploration",
-		Quick: 1500, Thorough: 60000, QuickWall: 4 * time.Minute, ThorWall: 40 * time.Minute,
+		Quick: 6000, Thorough: 300000, QuickWall: 5 * time.Minute, ThorWall: 40 * time.Minute,
 		Rule: "each run = one seeded workload (0-6 files with sizes around chunk boundaries, nesting, empty directories, legal odd names; chunk size 1 B-16 KiB; 1-8 streams; 1-4 connections; resume per side; hash algorithm; root-dir and scan mode; QUIC role; segment size; flow-control window) x one seeded schedule (random/weighted/PCT/FIFO, clock stalls, starve-one) with NO faults; non-trivial = more than 50 scheduling steps, distinct by decision-log hash",
 		Real: txReal, Stub: txStub, Assume: txAssume,
 	})
 	reg(&propDef{
 		ID: "C01", Pkg: "internal/transfer", Level: "exploration",
-		Quick: 1500, Thorough: 60000, QuickWall: 4 * time.Minute, ThorWall: 40 * time.Minute,
+		Quick: 6000, Thorough: 300000, QuickWall: 5 * time.Minute, ThorWall: 40 * time.Minute,
 		Rule: "same generator as C03 (fault-free, all configurations and schedules); only runs in which both engines returned nil are judged (the others are counted as outside the property's scope); oracle: digest of the output directory = digest of the generated source tree, nothing else present except the resume-metadata directory",
 		Real: txReal, Stub: txStub, Assume: txAssume,
 	})
 	reg(&propDef{
 		ID: "C17", Pkg: "internal/transfer", Level: "exploration",
-		Quick: 1500, Thorough: 60000, QuickWall: 4 * time.Minute, ThorWall: 40 * time.Minute,
+		Quick: 6000, Thorough: 300000, QuickWall: 5 * time.Minute, ThorWall: 40 * time.Minute,
 		Rule: "same generator as C03; oracle over the sender's wire history (every Write stamped with the scheduler step, decoded with the repo's decoders): one FileBegin per file, no (file,chunk) frame twice except the verified chunk once more, one FileEnd per file after its last chunk write, nothing after FileEnd, every needed chunk written or advertised",
 		Real: txReal, Stub: txStub, Assume: txAssume,
 	})
